@@ -486,6 +486,64 @@ fn f8() -> Vec<Case> {
     out
 }
 
+/// F9: a handled exception does not separate a closure from its variable.  Locals declared before a try
+/// statement are captured by closures made before it; an exception is raised inside the try (directly, by
+/// a callee, by a built-in) and handled in the same frame (catch; finally then an outer catch; catch in a
+/// nested block); afterwards the scope writes and the closures read, and the other way round.
+fn f9() -> Vec<Case> {
+    let mut out = Vec::new();
+    for raise in 0..3 {
+        for handle in 0..3 {
+            for in_function in [false, true] {
+                let failing: Stmt = match raise {
+                    0 => st(StmtKind::Throw(s("thrown here"))),
+                    1 => expr_stmt(call(var("thrower"), vec![])),
+                    _ => expr_stmt(index(Expr::VecLit(vec![]), num(1.0))),
+                };
+                let try_body = vec![var_stmt("inside", num(100.0)), expr_stmt(invoke(var("keep"), "push", vec![lambda_expr(&[], bin(BinOp::Add, var("inside"), var("count")))])), failing];
+                let handled: Stmt = match handle {
+                    0 => st(StmtKind::Try(try_body, Some(("e".into(), vec![pr("caught", call(var("type"), vec![var("e")]))])), None)),
+                    1 => st(StmtKind::Try(vec![st(StmtKind::Try(try_body, None, Some(vec![pr("finally sees", var("count"))])))], Some(("e".into(), vec![pr("caught", call(var("type"), vec![var("e")]))])), None)),
+                    _ => block(vec![var_stmt("shadow", num(7.0)), st(StmtKind::Try(try_body, Some(("e".into(), vec![pr("caught", bin(BinOp::Add, var("shadow"), var("count")))])), None))]),
+                };
+                let mut body = vec![
+                    var_stmt("count", num(1.0)),
+                    var_stmt("other", s("o")),
+                    var_stmt("get", lambda_expr(&[], var("count"))),
+                    var_stmt("inc", lambda_block(&[], vec![expr_stmt(assign("count", bin(BinOp::Add, var("count"), num(1.0)))), st(StmtKind::Return(Some(var("count"))))])),
+                    var_stmt("both", lambda_expr(&[], bin(BinOp::Add, var("other"), var("other")))),
+                    handled,
+                    // the scope writes, the closures read
+                    expr_stmt(assign("count", num(10.0))),
+                    pr("get after the scope wrote", call(var("get"), vec![])),
+                    // a closure writes, the scope and the other closure read
+                    pr("inc", call(var("inc"), vec![])),
+                    pr("count after inc", var("count")),
+                    pr("get after inc", call(var("get"), vec![])),
+                    expr_stmt(assign("other", s("p"))),
+                    pr("both", call(var("both"), vec![])),
+                    // a closure made after the exception shares the same variable
+                    var_stmt("late", lambda_block(&[], vec![expr_stmt(assign("count", bin(BinOp::Add, var("count"), num(100.0)))), st(StmtKind::Return(Some(var("count"))))])),
+                    pr("late", call(var("late"), vec![])),
+                    pr("get after late", call(var("get"), vec![])),
+                    pr("closure from the try body", call(index(var("keep"), num(0.0)), vec![])),
+                ];
+                let mut main = vec![var_stmt("keep", Expr::VecLit(vec![])), fn_stmt(func("thrower", &[], vec![st(StmtKind::Throw(s("thrown by a callee")))]))];
+                if in_function {
+                    body.push(st(StmtKind::Return(Some(var("get")))));
+                    main.push(fn_stmt(func("scope", &[], body)));
+                    main.push(var_stmt("escaped", call(var("scope"), vec![])));
+                    main.push(pr("escaped get", call(var("escaped"), vec![])));
+                } else {
+                    main.extend(body);
+                }
+                out.push(wrapable("F9_handled_exception_keeps_closures_attached", main));
+            }
+        }
+    }
+    out
+}
+
 /// the three metamorphic wrappings: the same statements as a block, a function called once, a fiber
 /// called once (top-level declarations become locals / captured variables on another fiber's stack)
 fn wrappings(c: &Case) -> Vec<Case> {
@@ -507,6 +565,7 @@ pub fn cases_for_c04(thorough: bool) -> Vec<Case> {
     v.extend(f5());
     v.extend(f6());
     v.extend(f7(false).into_iter().enumerate().filter(|(i, _)| thorough || i % 8 == 0).map(|(_, c)| c));
+    v.extend(f9());
     v
 }
 
@@ -520,6 +579,7 @@ pub fn run(ctx: &Ctx) -> Report {
     base.extend(f5());
     base.extend(f6());
     base.extend(f7(thorough));
+    base.extend(f9());
     let mut all: Vec<Case> = Vec::new();
     for (i, c) in base.iter().enumerate() {
         // every program in the thorough tier, every fourth in the quick tier, is also run in its wrappings
@@ -539,7 +599,7 @@ pub fn run(ctx: &Ctx) -> Report {
     mcheck::fill_report(
         &mut report,
         &stats,
-        "F1: every combination of scope kind (block, function, lambda, method, while body, for body, try body) x exit (fall through, return, break, continue, throw) x two closures with every read/write action over two variables, created through 0-2 intermediate function levels, called inside the scope, escaped, and called in several orders after the scope has exited; F2: fresh variables per iteration/activation; F3: shadowing at depth 1-3 with a closure and a write at every level; F4: textual resolution and late-bound globals; F5: 1-3 closures over 1-3 shared variables, slot reuse; F6: captures of a try body left by exception or return; F7: capture order - three variables, up to three closures each with every ordered capture list (15 lists), so captures happen in every order relative to declaration order and to earlier captures; F8: closures made straight after control came back from another module (exception caught, call returned, fiber finished, exception through a finally block). Each program also runs wrapped in a block, a function and a fiber. non-trivial = at least three observations printed.",
+        "F1: every combination of scope kind (block, function, lambda, method, while body, for body, try body) x exit (fall through, return, break, continue, throw) x two closures with every read/write action over two variables, created through 0-2 intermediate function levels, called inside the scope, escaped, and called in several orders after the scope has exited; F2: fresh variables per iteration/activation; F3: shadowing at depth 1-3 with a closure and a write at every level; F4: textual resolution and late-bound globals; F5: 1-3 closures over 1-3 shared variables, slot reuse; F6: captures of a try body left by exception or return; F7: capture order - three variables, up to three closures each with every ordered capture list (15 lists), so captures happen in every order relative to declaration order and to earlier captures; F9: locals captured before a try statement stay shared with their closures after an exception was raised inside it and handled in the same frame; F8: closures made straight after control came back from another module (exception caught, call returned, fiber finished, exception through a finally block). Each program also runs wrapped in a block, a function and a fiber. non-trivial = at least three observations printed.",
         json!({"closures": 2, "variables": 2, "intermediate_levels": if thorough { 3 } else { 2 }, "wrappings": 3}),
     );
     report.assumptions = vec!["M-eval's cell-based environments define the intended semantics (DESIGN.md Appendix A)".into()];
